@@ -59,6 +59,7 @@ type Options struct {
 	Before         []upstream.Upstream // upstreams listed before the real one (C16)
 	After          []upstream.Upstream
 	ListenerNames  map[string]string // listener channel name override: listener for channel X asks for name Y
+	UpScheme       string            // websocket carriers: scheme the upstream URL is written with ("http"/"https" default, "ws", "wss")
 	StrictVerify   bool              // do not default to insecure on carriers without a host name
 	NoClient       bool              // only start the server side
 	Tag            string            // makes socket names unique within one working directory
@@ -371,6 +372,9 @@ func Start(o Options) (*Pair, error) {
 		sch := "http"
 		if base == "wss" {
 			sch = "https"
+		}
+		if o.UpScheme != "" {
+			sch = o.UpScheme
 		}
 		p.UpURL = sch + "://" + upHost + "/ws/all"
 		up = &upstream.Http{Address: addr.MustParseAddress(p.UpURL)}
